@@ -2,7 +2,7 @@
 # try_seed.sh <seed-id-dir> <check-id> [tier]  : apply seeded patch to /repo (sources only), run check, undo.
 S=/verif/seeded/$1; CHK=$2; TIER=${3:-quick}
 cd /repo || exit 2
-git -C /repo apply --whitespace=nowarn --exclude=qtlogger.h "$S/patch.diff" || { echo "patch does not apply"; exit 2; }
+P="$S/patch.diff"; [ -f "$S/patch_current.diff" ] && P="$S/patch_current.diff"; git -C /repo apply --whitespace=nowarn --exclude=qtlogger.h "$P" || { echo "patch does not apply"; exit 2; }
 cd /verif; ./check $CHK $TIER > /tmp/try_$1_$CHK.out 2>&1; RC=$?
 git -C /repo checkout -- . 
 echo "seed=$1 check=$CHK tier=$TIER rc=$RC violations=$(grep -c '^VIOLATION' /tmp/try_$1_$CHK.out)"; grep -m2 -E "VIOLATION|TOOL-FAILURE" /tmp/try_$1_$CHK.out
